@@ -152,7 +152,7 @@ pub fn disarm() {
 // ---------------------------------------------------------------------------------------------
 // hashers
 
-#[derive(Debug)]
+#[derive(Debug, Default)]
 pub struct PlanBH {
     pub pl: u8,
 }
